@@ -886,3 +886,14 @@ M('tw-fdf-lines-with-a-comprehension', ['C19', 'C18'], PF, "        lines = []\n
 M('tw-typed-field-answer-renamed', ['C12', 'C03', 'C10'], FI, "        v = self._value(inputs, values)\n        if v is None or isinstance(v, str) and v.strip() == \"\":\n            return self._empty_value\n        elif type(v) is not self._type:\n            raise TypeError(f'Field named {self.name()} expected to produce type {self._type}, but found {type(v)}.')\n        return v\n",
   "        answer = self._value(inputs, values)\n        if answer is None or isinstance(answer, str) and answer.strip() == \"\":\n            return self._empty_value\n        if type(answer) is not self._type:\n            raise TypeError(f'Field named {self.name()} expected to produce type {self._type}, but found {type(answer)}.')\n        return answer\n", None,
   'the answer of the definition renamed and the elif written as if', expect='silent')
+M('tw-text-box-value-in-a-fresh-local', ['C19', 'C18'], PFD, "        value = super().value(value, field_obj)\n        if self.max_length is not None and len(value) > self.max_length:\n            raise PDFValueTooLong(self.pdf_field_name, self.field_name, self.max_length)\n        return value\n",
+  "        text = super().value(value, field_obj)\n        if self.max_length is not None and len(text) > self.max_length:\n            raise PDFValueTooLong(self.pdf_field_name, self.field_name, self.max_length)\n        return text\n", None,
+  'the text of a box kept in a local of its own instead of rebinding the parameter', expect='silent')
+M('tw-button-value-as-an-expression', ['C18', 'C19'], PFD, "        if value:\n            return self._true_value\n        else:\n            return 'Off'\n", "        return self._true_value if value else 'Off'\n", None,
+  'the state of a check box chosen with a conditional expression', expect='silent')
+M('tw-provides-through-locals', ['C11', 'C13', 'C06', 'C01'], IN, "        return self.config.has_option(input_obj.section(), input_obj.base_name())\n",
+  "        section = input_obj.section()\n        option = input_obj.base_name()\n        return self.config.has_option(section, option)\n", None, 'provides() names section and option before asking the parser', expect='silent')
+M('tw-cli-writeback-flag-in-a-local', ['C20', 'C13'], CLI, "    if args.writeback_input:\n        Path(args.input_file).touch()", "    writeback = args.writeback_input\n    if writeback:\n        Path(args.input_file).touch()", None,
+  'the write-back switch kept in a local', expect='silent', more=[(CLI, "        if args.writeback_input:\n            input_store.write(args.input_file)\n", "        if writeback:\n            input_store.write(args.input_file)\n")])
+M('tw-escape-with-a-loop-over-pairs', ['C19'], PF, "    return str(text).replace('\\\\', '\\\\\\\\').replace('(', '\\\\(').replace(')', '\\\\)')\n",
+  "    out = str(text).replace('\\\\', '\\\\\\\\')\n    out = out.replace('(', '\\\\(')\n    out = out.replace(')', '\\\\)')\n    return out\n", None, 'the three replacements of the escaping function written one per statement', expect='silent')
